@@ -17,15 +17,20 @@ thread_local! {
     static BASE: RefCell<Option<Runtime<NoCtx>>> = const { RefCell::new(None) };
 }
 
-/// A fresh default runtime (`Runtime::new()`, cloned from a per-process copy)
-pub fn fresh_runtime() -> Runtime<NoCtx> {
+/// Build the per-process default runtime; Err(panic message) if `Runtime::new()` panics
+pub fn base_runtime() -> Result<(), String> {
     BASE.with(|b| {
         let mut b = b.borrow_mut();
         if b.is_none() {
-            *b = Some(Runtime::new());
+            *b = Some(vcore::util::catch(Runtime::new)?);
         }
-        b.as_ref().unwrap().clone()
+        Ok(())
     })
+}
+
+/// A fresh default runtime (`Runtime::new()`, cloned from a per-process copy)
+pub fn fresh_runtime() -> Runtime<NoCtx> {
+    BASE.with(|b| b.borrow().as_ref().expect("base_runtime() first").clone())
 }
 
 pub fn build_item(it: &CItem) -> Result<Item, RegistrationError> {
